@@ -12,6 +12,7 @@ import (
 	"io"
 	"io/ioutil"
 	"math/rand"
+	"sync"
 	"testing/iotest"
 
 	"github.com/brutella/hc/crypto"
@@ -129,9 +130,9 @@ func main() {
 			return
 		}
 		c2a, a2c := refctl.SessionKeys(secret[:])
-		refA2C := &refctl.Framer{Key: a2c}     // reference framing of what the accessory sends
-		refA2Cdec := &refctl.Framer{Key: a2c}  // reference decrypter for it
-		refC2A := &refctl.Framer{Key: c2a}     // reference framing of what the controller sends
+		refA2C := &refctl.Framer{Key: a2c}    // reference framing of what the accessory sends
+		refA2Cdec := &refctl.Framer{Key: a2c} // reference decrypter for it
+		refC2A := &refctl.Framer{Key: c2a}    // reference framing of what the controller sends
 		refC2Adec := &refctl.Framer{Key: c2a}
 		refC2Ain := &refctl.Framer{Key: c2a} // a second controller stream framed by the reference only, fed to hc's accessory end
 		_ = refC2Ain
@@ -246,6 +247,90 @@ func main() {
 		rnd.Read(s[:])
 		runCase(s, lens, readerModes[rnd.Intn(len(readerModes))])
 	}
+	duplex(r, rnd)
 	r.Floor("messages_roundtripped", int(r.Counter("messages_roundtripped")), 1000)
+	r.Floor("duplex_messages", int(r.Counter("duplex_messages")), 10000)
 	r.Finish()
+}
+
+// duplex: a session is used in both directions at the same time (the connection's reader goroutine decrypts
+// while other goroutines encrypt responses and notifications).  The two directions share nothing they may
+// disturb: every encrypted message must equal the reference framing and every reference-framed incoming message
+// must decrypt to its payload, while the other direction is busy on the same session object.
+func duplex(r *vf.Run, rnd *rand.Rand) {
+	rounds := r.Pick(6, 40)
+	per := r.Pick(4000, 12000)
+	for round := 0; round < rounds; round++ {
+		var secret [32]byte
+		rnd.Read(secret[:])
+		acc, err := crypto.NewSecureSessionFromSharedKey(secret)
+		if err != nil {
+			r.Inconclusive("session constructor: " + err.Error())
+			return
+		}
+		c2a, a2c := refctl.SessionKeys(secret[:])
+		// pre-generate the work so that both goroutines only call hc
+		type msg struct{ plain, wire []byte }
+		mk := func(key [32]byte, seed int64) []msg {
+			g := rand.New(rand.NewSource(seed))
+			f := &refctl.Framer{Key: key}
+			out := make([]msg, per)
+			for i := range out {
+				n := 1 + g.Intn(40)
+				if i%97 == 0 {
+					n = 1000 + g.Intn(1500)
+				}
+				p := make([]byte, n)
+				g.Read(p)
+				out[i] = msg{p, f.SealFrames(p, nil)}
+			}
+			return out
+		}
+		outgoing := mk(a2c, r.Seed*7+int64(round))  // what hc must produce when it encrypts outgoing[i].plain in order
+		incoming := mk(c2a, r.Seed*13+int64(round)) // what hc must accept
+		var wg sync.WaitGroup
+		var mu sync.Mutex
+		report := func(sig, what string, w map[string]interface{}) {
+			mu.Lock()
+			r.Violation(sig, what, w)
+			mu.Unlock()
+		}
+		wg.Add(2)
+		go func() {
+			defer wg.Done()
+			for i, m := range outgoing {
+				e, err := acc.Encrypt(bytes.NewReader(m.plain))
+				if err != nil {
+					report("duplex:encrypt-error", "Encrypt failed while the session was decrypting in the other direction: "+err.Error(), nil)
+					return
+				}
+				wire, _ := ioutil.ReadAll(e)
+				if !bytes.Equal(wire, m.wire) {
+					report("duplex:encrypt-wire-mismatch", fmt.Sprintf("message %d encrypted while the same session decrypts in the other direction differs from the reference framing", i),
+						map[string]interface{}{"message": i, "payload_len": len(m.plain), "hc_wire": vf.Hex(wire), "reference_wire": vf.Hex(m.wire), "secret": vf.Hex(secret[:])})
+					return
+				}
+			}
+		}()
+		go func() {
+			defer wg.Done()
+			for i, m := range incoming {
+				d, err := acc.Decrypt(bytes.NewReader(m.wire))
+				if err != nil {
+					report("duplex:decrypt-rejects-well-formed-message", fmt.Sprintf("incoming message %d (well-formed, reference-framed) is rejected while the same session encrypts in the other direction: %v", i, err),
+						map[string]interface{}{"message": i, "payload_len": len(m.plain), "secret": vf.Hex(secret[:])})
+					return
+				}
+				got, _ := ioutil.ReadAll(d)
+				if !bytes.Equal(got, m.plain) {
+					report("duplex:decrypt-mismatch", fmt.Sprintf("incoming message %d decrypts to other bytes while the same session encrypts in the other direction", i), nil)
+					return
+				}
+			}
+		}()
+		wg.Wait()
+		r.Evals(2 * per)
+		r.Count("duplex_messages", 2*per)
+		r.Nontrivial(fmt.Sprintf("duplex/%d", round))
+	}
 }
